@@ -4,6 +4,7 @@ import Nstd.Path.FsUnlink
 import Nstd.Path.FsCopy
 import Nstd.Path.FsRename
 import Nstd.Path.FsCreateOk
+import Nstd.Path.FsRoundtrip
 /-
   Property C19, file-system part: theorems about the algorithms of File.cpp / Directory.cpp
   (Nstd/Path/FsLib.lean) over the ASSUMED POSIX semantics of Nstd/Path/Fs.lean, for all worlds
@@ -22,6 +23,26 @@ theorem file_bytes_exact (ops : List FileOp) (fs : Fs) (fd : Fd) (c : Bytes)
     (runOps fs fd ops).2.1.pos = (specRun fd.acc ⟨c, fd.pos⟩ ops).1.pos ∧
     ∀ q, q ≠ fd.path → (runOps fs fd ops).1.get q = fs.get q :=
   runOps_refines ops fs fd c hdir hp hget
+
+/-- … end to end through the library calls: File::open(path, writeFlag) (existing file → truncated, missing
+    file → created), File::write d₁ … dₙ (each answers true), then the static File::readAll(path) returns
+    exactly d₁ ++ … ++ dₙ; with writeFlag | appendFlag the old bytes followed by them. -/
+theorem written_bytes_are_read_back (fs : Fs) (path : Bytes) (ds : List Bytes) :
+    (∀ p c, resolve fs path true = .found p (.file c) →
+      ∃ fs1 fd, fileOpen fs path writeFlag = (fs1, some fd) ∧
+        (runOps fs1 fd (ds.map FileOp.write)).2.2 = ds.map (fun _ => FileOut.wrote true) ∧
+        fileReadAllPath (runOps fs1 fd (ds.map FileOp.write)).1 path = some ds.flatten) ∧
+    (∀ pa n, resolve fs path true = .missing pa n →
+      ∃ fs1 fd, fileOpen fs path writeFlag = (fs1, some fd) ∧
+        (runOps fs1 fd (ds.map FileOp.write)).2.2 = ds.map (fun _ => FileOut.wrote true) ∧
+        fileReadAllPath (runOps fs1 fd (ds.map FileOp.write)).1 path = some ds.flatten) ∧
+    (∀ p c, resolve fs path true = .found p (.file c) →
+      ∃ fd, fileOpen fs path (writeFlag + appendFlag) = (fs, some fd) ∧
+        (runOps fs fd (ds.map FileOp.write)).2.2 = ds.map (fun _ => FileOut.wrote true) ∧
+        fileReadAllPath (runOps fs fd (ds.map FileOp.write)).1 path = some (c ++ ds.flatten)) :=
+  ⟨fun p c h => write_then_readAll_existing fs path p c ds h,
+   fun pa n h => write_then_readAll_new fs path pa n ds h,
+   fun p c h => append_then_readAll_existing fs path p c ds h⟩
 
 /-- … across copy: a File::copy that reports success (with or without an injected partial transfer) has put
     exactly the bytes of the source file into the destination file — an existing file or one created where
